@@ -99,9 +99,12 @@ func ruleLProgress(c *engine.Context) *report.Rule {
 								}
 							}
 						} else {
-							res = true
+							// a merge inside the iteration: which edge is taken is decided by tests
+							// inside the loop, so only a phi whose edges all carry one settled value is
+							// settled itself
+							res = len(y.Edges) > 0
 							for _, e := range y.Edges {
-								if !settled(e, depth+1) {
+								if e != y.Edges[0] || !settled(e, depth+1) {
 									res = false
 								}
 							}
@@ -165,7 +168,7 @@ func ruleLProgress(c *engine.Context) *report.Rule {
 				case *ssa.If:
 					if leaves {
 						judged++
-						if !settled(x.Cond, 0) {
+						if !settled(x.Cond, 0) || settlesOnExit(l, x) {
 							allSettled = false
 						} else if at == nil {
 							at = x
@@ -210,6 +213,41 @@ func ruleLProgress(c *engine.Context) *report.Rule {
 		}
 	}
 	return r
+}
+
+// settlesOnExit: the exit condition is a header phi (possibly negated) whose back-edge operands
+// are boolean constants that all send control out of the loop: a run-once / run-until-flag loop
+// (`for again := true; again; again = false`), which ends on its second test.
+func settlesOnExit(l *cfgutil.Loop, ifi *ssa.If) bool {
+	cond, neg := unwrapNot(ifi.Cond)
+	ph, ok := cond.(*ssa.Phi)
+	if !ok || ph.Block() != l.Header {
+		return false
+	}
+	b := ifi.Block()
+	if len(b.Succs) != 2 {
+		return false
+	}
+	n := 0
+	for i, pred := range ph.Block().Preds {
+		if !l.Blocks[pred] {
+			continue
+		}
+		c, isC := ph.Edges[i].(*ssa.Const)
+		if !isC || c.Value == nil || c.Value.Kind() != constant.Bool {
+			return false
+		}
+		truth := constant.BoolVal(c.Value) != neg
+		next := b.Succs[1]
+		if truth {
+			next = b.Succs[0]
+		}
+		if l.Blocks[next] {
+			return false
+		}
+		n++
+	}
+	return n > 0
 }
 
 // ruleNStandIn: N-STANDIN — a node that carries an optional part by value (a struct field that
@@ -271,19 +309,27 @@ func ruleNStandIn(c *engine.Context) *report.Rule {
 				if _, isNamed := ft.(*types.Named); !isNamed || !nodePtr(ft) || st.Field(fa.Field).Embedded() {
 					continue
 				}
-				// a store of the zero value clears the part: allowed anywhere
-				clears := false
+				// the part is touched where the address is used, not where it is computed
+				// (`standIn := &node.part` may stand before the test)
+				var uses []ssa.Instruction
 				for _, ref := range *fa.Referrers() {
-					if sto, ok := ref.(*ssa.Store); ok && sto.Addr == ssa.Value(fa) {
-						if isZeroStruct(sto.Val) {
-							clears = true
-						}
+					if sto, ok := ref.(*ssa.Store); ok && sto.Addr == ssa.Value(fa) && isZeroStruct(sto.Val) {
+						continue // a store of the zero value clears the part: allowed anywhere
 					}
+					if _, isDbg := ref.(*ssa.DebugRef); isDbg {
+						continue
+					}
+					uses = append(uses, ref)
 				}
-				if clears {
-					continue
+				seenGuard := map[string]bool{}
+				for _, u := range uses {
+					g := standInGuard(fa, u.Block())
+					if seenGuard[g] {
+						continue
+					}
+					seenGuard[g] = true
+					sites[key{T, fa.Field}] = append(sites[key{T, fa.Field}], &site{fn: fn, fa: fa, guard: g})
 				}
-				sites[key{T, fa.Field}] = append(sites[key{T, fa.Field}], &site{fn: fn, fa: fa, guard: standInGuard(fa)})
 			}
 		}
 	}
@@ -365,14 +411,35 @@ func isZeroStruct(v ssa.Value) bool {
 
 // standInGuard: the tests of scalar fields of the same object that hold whenever fa executes,
 // in a canonical spelling.
-func standInGuard(fa *ssa.FieldAddr) string {
+func standInGuard(fa *ssa.FieldAddr, at *ssa.BasicBlock) string {
 	base := fa.X
+	// a local that was stored into a scalar field of the same object stands for that field
+	storedInto := map[ssa.Value]string{}
+	for _, b := range fa.Parent().Blocks {
+		for _, ins := range b.Instrs {
+			st, ok := ins.(*ssa.Store)
+			if !ok {
+				continue
+			}
+			f2, ok := st.Addr.(*ssa.FieldAddr)
+			if !ok || f2.X != base {
+				continue
+			}
+			stt := f2.X.Type().Underlying().(*types.Pointer).Elem().Underlying().(*types.Struct)
+			if _, isBasic := stt.Field(f2.Field).Type().Underlying().(*types.Basic); isBasic {
+				storedInto[st.Val] = stt.Field(f2.Field).Name()
+			}
+		}
+	}
 	var parts []string
-	for _, dc := range dominatingConds(fa.Block()) {
+	for _, dc := range dominatingConds(at) {
 		cond, neg := unwrapNot(dc.cond)
 		truth := dc.taken != neg
 		desc := ""
 		fieldOf := func(v ssa.Value) (string, bool) {
+			if name, ok := storedInto[v]; ok {
+				return name, true
+			}
 			ld, ok := v.(*ssa.UnOp)
 			if !ok || ld.Op != token.MUL {
 				return "", false
@@ -481,6 +548,9 @@ func rulePArrayBound(c *engine.Context) *report.Rule {
 				}
 				r.Instances++
 				ub, known := upperBound(idx, b, 0)
+				if eb, isEnum := closedEnumBound(p, idx.Type()); isEnum && (!known || eb < ub) {
+					ub, known = eb, true
+				}
 				ok = known && ub < arr.Len()
 				r.Oblige(ok)
 				r.Sample("%s: index into [%d]%s bounded by %d (known=%v)", load.FuncName(fn), arr.Len(), tname(arr.Elem()), ub, known)
@@ -496,6 +566,72 @@ func rulePArrayBound(c *engine.Context) *report.Rule {
 		}
 	}
 	return r
+}
+
+// closedEnumBound: t is a named integer type of the package whose values are only ever its
+// declared constants (no conversion from a computed integer, no arithmetic yields the type);
+// the bound is the largest constant.
+func closedEnumBound(p *load.Program, t types.Type) (int64, bool) {
+	nt, ok := t.(*types.Named)
+	if !ok || nt.Obj().Pkg() != p.Types {
+		return 0, false
+	}
+	bt, ok := nt.Underlying().(*types.Basic)
+	if !ok || bt.Info()&types.IsInteger == 0 {
+		return 0, false
+	}
+	max, n := int64(0), 0
+	for _, name := range p.Types.Scope().Names() {
+		c, ok := p.Types.Scope().Lookup(name).(*types.Const)
+		if !ok || !types.Identical(c.Type(), nt) {
+			continue
+		}
+		iv := constant.ToInt(c.Val())
+		if iv.Kind() != constant.Int {
+			return 0, false
+		}
+		v, exact := constant.Int64Val(iv)
+		if !exact || v < 0 {
+			return 0, false
+		}
+		if v > max {
+			max = v
+		}
+		n++
+	}
+	if n == 0 {
+		return 0, false
+	}
+	for _, fn := range p.Funcs {
+		for _, b := range fn.Blocks {
+			for _, ins := range b.Instrs {
+				v, isVal := ins.(ssa.Value)
+				if !isVal {
+					continue
+				}
+				if vt, isNamed := v.Type().(*types.Named); !isNamed || vt.Obj() != nt.Obj() {
+					continue
+				}
+				switch x := ins.(type) {
+				case *ssa.Convert:
+					if _, isC := x.X.(*ssa.Const); !isC {
+						return 0, false
+					}
+				case *ssa.ChangeType:
+					if _, isC := x.X.(*ssa.Const); !isC {
+						return 0, false
+					}
+				case *ssa.BinOp:
+					return 0, false
+				case *ssa.UnOp:
+					if x.Op != token.MUL {
+						return 0, false
+					}
+				}
+			}
+		}
+	}
+	return max, true
 }
 
 // upperBound: the largest value v can have when control is in block at (inclusive).
